@@ -565,6 +565,13 @@ class _SetOperation(Selectable, Term):
 
         self._wrapper_cls = wrapper_cls
 
+    def __copy__(self) -> "_SetOperation":
+        newone = type(self).__new__(type(self))
+        newone.__dict__.update(self.__dict__)
+        newone._set_operation = copy(self._set_operation)
+        newone._orderbys = copy(self._orderbys)
+        return newone
+
     @builder
     def orderby(self, *fields: Field, **kwargs: Any) -> "_SetOperation":
         for field in fields:
